@@ -128,6 +128,8 @@ def discharge(site, ts, ex):
             if isinstance(d, tuple) and d[0] == "pre" and d[1].startswith("self.") and d[1].split(".")[-1] in ts.len_fields:
                 return "R-div-period", ""
             return None, "integer division/remainder by %s, not provably non-zero" % show(d if d is not None else c)[:60]
+        if kind in ("MisalignedPointerDereference", "NullPointerDereference") and NO_UNSAFE[0]:
+            return "R-safe-reference (compiler-inserted UB check on a reference / Box pointer; cannot fail in a crate without `unsafe`, which C05-S1 enforces)", ""
         return None, "Assert %s has no discharge rule" % kind
     if site["what"] == "slice-index":
         buf = ops["array"][1] if len(ops["array"]) == 2 and ops["array"][0] == "self" else None
@@ -155,8 +157,15 @@ def discharge(site, ts, ex):
     return None, "unknown site kind"
 
 
+NO_UNSAFE = [False]
+
+
 def apply(F, S, extra=None):
     tss, classes = typestate.all_structs(F)
+    a_ = F.ast
+    from rules_c05 import hand_written
+    NO_UNSAFE[0] = (not any(b["user"] and hand_written(b["span"]) for b in a_["unsafe_blocks"]) and not any(f["unsafe"] and hand_written(f["span"]) for f in a_["fns"])
+                    and not any(i["unsafe"] and hand_written(i["span"]) for i in a_["impls"]))
     counts = {"assert": 0, "slice-index": 0}
     visited = set()
     evaluated = 0
@@ -167,6 +176,8 @@ def apply(F, S, extra=None):
             continue
         if f.derived and not any(b["term"]["k"] == "assert" for b in f.blocks):
             continue  # derived code without checked operations: its callees are classified under P2
+        if f.path in F.helpers():
+            continue  # context-bound helper: inlined into (and its sites visited from) every caller
         s = f.self_struct
         ts = tss.get(s)
         cfg = symex.get_cfg(f)
@@ -196,6 +207,8 @@ def apply(F, S, extra=None):
                 # site inside an inlined helper: attribute to that helper's struct
                 g = F.fn_by_path.get(site["path"])
                 ts_site = tss.get(g.self_struct) if g is not None else None
+                if ts_site is None and g is not None and g.path in F.helpers():
+                    ts_site = ts  # free helper inlined into a method: its operands are the caller's state
             else:
                 ts_site = ts
             key = (site["path"], site["block"], site["what"], site["kind"], site["span"]["line"], site["span"]["col"])
@@ -222,6 +235,8 @@ def apply(F, S, extra=None):
             t = b["term"]
             if t["k"] == "assert":
                 hit = any(k[0] == f.path and k[1] == b["id"] for k in visited)
+                if not hit and f.path in F.helpers() and F.only_from_constructors(f.path):
+                    continue  # reachable from constructors only: C11's subject
                 if not hit:
                     S.bad("P1", "unvisited-assert", "%s:%s" % (f.label, t["msg"]["kind"]), "Assert %s in %s was not reached by the evaluation (derived or infeasible code): cannot discharge" % (t["msg"]["kind"], f.label), loc(t["span"]))
     # P2: panicking / unknown callees reachable from anything but constructors
